@@ -66,7 +66,7 @@ _VARIANTS = {
     "fuzz": dict(
         cxx="clang++", cc="clang",
         flags="-O1 -g -fno-omit-frame-pointer -fsanitize=fuzzer-no-link,address,undefined "
-              "-fno-sanitize-recover=undefined -D%s" % GUARD,
+              "-fno-sanitize-recover=undefined -D_GLIBCXX_ASSERTIONS -D%s" % GUARD,
         shared="OFF", targets=["cppParser", "interrogatedb", "dtoolutil", "dtoolbase"],
         std_flags="-O1",
     ),
